@@ -149,7 +149,7 @@ def main():
     baseline_p = os.path.join(HERE, "specs", "baseline_goals.json")
     baseline = json.load(open(baseline_p)) if os.path.exists(baseline_p) else {}
     # stage 1: z3 (E-matching) on everything
-    stats = smt.discharge(goals, timeout_s=timeout, seed=a.seed % 1000, stages=("z3",))
+    stats = smt.discharge(goals, timeout_s=timeout, seed=a.seed % 1000, stages=("z3-abs", "z3"))
     open1 = [g for g in goals if g.status != "unsat"]
     same = [g for g in open1 if baseline.get(g.name) == smt.goal_hash(g)]      # text identical to a discharged baseline goal
     diff = [g for g in open1 if baseline.get(g.name) != smt.goal_hash(g)]      # new or changed obligation
@@ -158,7 +158,7 @@ def main():
             stats[k_] += st2[k_]
     if same:
         # a solver flake by construction: full portfolio, generous budget
-        _add(smt.discharge(same, timeout_s=timeout * 4, seed=a.seed % 1000, stages=("z3-mbqi", "cvc5", "z3")))
+        _add(smt.discharge(same, timeout_s=timeout * 4, seed=a.seed % 1000, stages=("z3-mbqi", "cvc5", "z3-abs", "z3")))
     if diff:
         # changed obligations: full portfolio on the first few, the rest stay as stage 1 left them
         _add(smt.discharge(diff[:12], timeout_s=timeout, seed=a.seed % 1000, stages=("z3-mbqi", "cvc5")))
